@@ -160,6 +160,8 @@ CMPOPS = ["<", ">", "==", "!=", "<=", ">=", "is", "is not", "in", "not in"]
 DOCSTRINGS = [
     "'doc'", "'''multi\nline'''", "'\\xe9 doc'", "'\\U0001f600'", "'\\udc80 lone'", "''", "'a\\x00b'",
     "'''" + "d" * 300 + "'''", "'\\u20ac'", "'doc' 'joined'", "'\\udc80 \\U0001fad0 \\U0001fae8'", "'caf\\xe9 \\ud800'",
+    # lines made only of blanks / tabs INSIDE a string literal
+    "'''first\n    \nthird'''", "'''a\n\t\nb\n  \n'''",
 ]
 
 
